@@ -17,15 +17,24 @@
 (***************************************************************************)
 EXTENDS Integers, Sequences, FiniteSets, TLC, Json
 
-CONSTANTS OpA, OpB, Start, Export
+CONSTANTS Export
+
+OpNames == <<"SetTok", "SetAuth", "GetTok", "GetAuth", "ClearAuth", "Remove">>
+Starts == {"absent", "pending", "tokens"}
 
 Clients == {1, 2}
-OpOf(c) == IF c = 1 THEN OpA ELSE OpB
+VARIABLES pair, h, pc, res, err, seen, hist
+vars == <<pair, h, pc, res, err, seen, hist>>
+\* which two operations run, and on what initial content, is chosen in the initial state (ia <= ib: the other order is the same set of schedules)
+OpOf(c) == IF c = 1 THEN OpNames[pair.ia] ELSE OpNames[pair.ib]
+OpA == OpNames[pair.ia]
+OpB == OpNames[pair.ib]
+Start == pair.s
 
 \* the hash: field -> value (0 = field absent); the key exists iff some field is present
 Fields == {"id", "at", "exp", "rt", "state", "verifier", "ta"}
 Empty == [f \in Fields |-> 0]
-Exists(h) == \E f \in Fields : h[f] # 0
+Exists(hh) == \E f \in Fields : hh[f] # 0
 
 \* the programs: sequences of commands; a write by client c stores the value c (1 or 2), pre-existing data is 9
 Prog(op) ==
@@ -36,14 +45,12 @@ Prog(op) ==
     [] op = "ClearAuth" -> <<"HDEL auth", "HGET ta", "DEL!">>
     [] op = "Remove"    -> <<"DEL">>
 
-VARIABLES h, pc, res, err, seen, hist
-vars == <<h, pc, res, err, seen, hist>>
 
 StartHash == CASE Start = "absent"  -> Empty
                [] Start = "pending" -> [Empty EXCEPT !.state = 9, !.verifier = 9, !.ta = 9]
                [] Start = "tokens"  -> [Empty EXCEPT !.id = 9, !.at = 9, !.exp = 9, !.rt = 9, !.verifier = 9, !.ta = 9]
 
-Init == h = StartHash /\ pc = [c \in Clients |-> 1] /\ res = [c \in Clients |-> 0] /\ err = [c \in Clients |-> FALSE]
+Init == pair \in {p \in [ia : 1..6, ib : 1..6, s : Starts] : p.ia <= p.ib} /\ h = StartHash /\ pc = [c \in Clients |-> 1] /\ res = [c \in Clients |-> 0] /\ err = [c \in Clients |-> FALSE]
         /\ seen = [c \in Clients |-> 0] /\ hist = <<>>
 
 Done(c) == pc[c] > Len(Prog(OpOf(c)))
@@ -75,7 +82,7 @@ Cmd(c) ==
             ELSE adv /\ UNCHANGED <<h, res, err, seen>>
        [] k = "HDEL auth" -> h' = [h EXCEPT !.state = 0] /\ adv /\ UNCHANGED <<res, err, seen>>       \* (the verifier field is not deleted by the store)
        [] k = "DEL" -> h' = Empty /\ adv /\ UNCHANGED <<res, err, seen>>
-  /\ hist' = Append(hist, c)
+  /\ hist' = Append(hist, c) /\ UNCHANGED pair
 
 Next == \E c \in Clients : Cmd(c)
 Spec == Init /\ [][Next]_vars
